@@ -209,7 +209,21 @@ def execute(ctx, case):
     cmx = s.cm(rand_input("thr"))
     K = int(rng.integers(2, 5))
     mc = ConfusionMatrix(matrix=rng.integers(0, 7, (int(rng.integers(1, 3)), K, K)))
-    for obj, names in ((cmx, ["tpr", "fnr", "ppv", "accuracy", "tpr_ci", "pop", "topr"]), (mc, ["tpr", "ppv", "class_accuracy", "fnr_ci", "accuracy", "one_vs_all", "tp"])):
+    # binary matrices of every numeric kind (float64 weights, float32, fractional), also stacked and with zero rows; caller-owned arrays
+    lead_ = tuple(int(x) for x in rng.integers(1, 4, int(rng.integers(0, 3))))
+    fm = rng.uniform(0, 5, lead_ + (2, 2)) * (rng.random(lead_ + (2, 1)) < 0.85)
+    fdt = [np.float64, np.float64, np.float32][int(rng.integers(0, 3))]
+    caller = np.array(fm, dtype=fdt)
+    caller0 = caller.copy()
+    bf = ConfusionMatrix(matrix=caller, binary=True)
+    bnames = ["tpr", "tar", "fnr", "tnr", "fpr", "ppv", "npv", "accuracy", "tpr_ci", "topr", "tonr", "pop", "p", "n"]
+    bnames = [bnames[i] for i in rng.permutation(len(bnames))]
+    from score_analysis import metrics as MET
+
+    for fn_ in ("tpr", "fnr", "tnr", "fpr", "ppv", "npv", "topr", "tonr", "accuracy"):
+        getattr(MET, fn_)(caller)
+    C(np.array_equal(caller, caller0, equal_nan=True), "a metric changed the caller's float matrix", "hist-metric-args", dtype=str(caller.dtype))
+    for obj, names in ((cmx, ["tpr", "fnr", "ppv", "accuracy", "tpr_ci", "pop", "topr"]), (mc, ["tpr", "ppv", "class_accuracy", "fnr_ci", "accuracy", "one_vs_all", "tp"]), (bf, bnames)):
         m0 = np.array(obj.matrix, copy=True)
         first = {}
         for _ in range(2):
@@ -218,6 +232,7 @@ def execute(ctx, case):
                 if nm in first:
                     C(_equal(first[nm], r), "a repeated ConfusionMatrix query returned a different result", "hist-repeat-cm", method=nm)
                 first[nm] = r
-        C(np.array_equal(obj.matrix, m0), "ConfusionMatrix queries changed the matrix", "hist-cm-matrix")
+        C(np.array_equal(obj.matrix, m0, equal_nan=True), "ConfusionMatrix queries changed the matrix", "hist-cm-matrix")
+    C(np.array_equal(caller, caller0, equal_nan=True), "ConfusionMatrix queries changed the array the matrix was built from", "hist-cm-caller-array")
     sess.sig_counts[("case",) + sig] += 1
     return True
